@@ -39,6 +39,19 @@ EDITS = [
     ("statistics: the not-None filter written with a named predicate and an early variable", "panoptica/panoptica_statistics.py",
      [("        if not remove_nones:\n            return self.__value_dict[group][metric]\n        return [i for i in self.__value_dict[group][metric] if i is not None]",
        "        values = self.__value_dict[group][metric]\n        if remove_nones:\n            return [v for v in values if not (v is None)]\n        return values")], ["C20"]),
+    ("aggregator: row cells through dict.get, group result bound to a clearer name", "panoptica/panoptica_aggregator.py",
+     [('                    mvalue = result_dict[e] if e in result_dict else ""\n                    content.append(mvalue)', '                    content.append(result_dict.get(e, ""))')], ["C18", "C17", "C16"]),
+    ("statistics: across-groups averages collected in a loop instead of a comprehension", "panoptica/panoptica_statistics.py",
+     [("            value_list = [self.get_summary(g, m).avg for g in self.__groupnames]\n", "            value_list = []\n            for group in self.__groupnames:\n                value_list.append(self.get_summary(group, m).avg)\n")], ["C20"]),
+    ("approximator: emptiness flags inlined into the conditional expressions", "panoptica/instance_approximator.py",
+     [("        empty_prediction = len(semantic_pair._pred_labels) == 0\n        empty_reference = len(semantic_pair._ref_labels) == 0\n", "        empty_prediction = not len(semantic_pair._pred_labels) > 0\n        empty_reference = not len(semantic_pair._ref_labels) > 0\n")], ["C05", "C01"]),
+    ("RVD written as a ratio minus one", "panoptica/metrics/relative_volume_difference.py",
+     [("    rvd = (prediction_mask - reference_mask) / reference_mask\n    return rvd", "    ratio = prediction_mask / reference_mask\n    return ratio - 1.0")], ["C06", "C11"]),
+    ("evaluator: keyword arguments of panoptic_evaluate reordered", "panoptica/panoptica_evaluator.py",
+     [("            instance_metrics=self.__eval_metrics,\n            global_metrics=self.__global_metrics,\n", "            global_metrics=self.__global_metrics,\n            instance_metrics=self.__eval_metrics,\n")], ["C12", "C15", "C19"]),
+    ("merge matcher: comparison operands exchanged (a < b as b > a)", "panoptica/instance_matcher.py",
+     [("                    new_score < score_ref[ref_label]\n                    if self._matching_metric.decreasing\n                    else new_score > score_ref[ref_label]",
+       "                    score_ref[ref_label] > new_score\n                    if self._matching_metric.decreasing\n                    else score_ref[ref_label] < new_score")], ["C14"]),
     ("matcher: dead assignment removed and comprehension without list()", "panoptica/instance_matcher.py",
      [("    ref_matched_labels = []\n    label_counter", "    label_counter"),
       ("    ref_matched_labels = list([r for r in ref_labels if r in pred_labelmap.values()])", "    ref_matched_labels = [r for r in ref_labels if r in pred_labelmap.values()]")], ["C04"]),
